@@ -17,7 +17,7 @@ RULE = ("chains (depth 1..3 quick, ..4 thorough) of Prefixed(Byte|Int16ub|VarInt
         "start offsets 0..7; payloads incl. empty, terminator/pad units inside and at the end; region lengths exact, zero, and overlong "
         "(must be StreamError). non-trivial = depth >= 2 or start offset > 0; distinct by (chain, probe, offset, payload class)")
 ASSUMPTIONS = ["multi-byte terminator/pad payloads are unit-aligned (Issue 1046 documents unaligned data as undefined)",
-               "only parsing is observed: build writes inner regions into fresh buffers, for which the property claims nothing"]
+               "building is observed only for the delimiters that assemble their region on its own (FixedSized, Prefixed): the region is exactly what the inner construct wrote"]
 REQUIRED_ANCHORS = ["core:BytesIOWithOffsets.tell", "core:BytesIOWithOffsets.seek", "core:BytesIOWithOffsets.from_reading", "core:Prefixed._parse",
                     "core:FixedSized._parse", "core:OffsettedEnd._parse", "core:NullTerminated._parse", "core:NullStripped._parse",
                     "core:ProcessXor._parse", "core:Tell._parse", "core:RawCopy._parse", "core:Pointer._parse"]
@@ -136,12 +136,18 @@ def ref_probe(probe, data, base):
         if len(data) < 2:
             raise Reject()
         return data[:2]
-    if probe == "offsets":
+    if probe in ("offsets", "offsets-root"):
         if len(data) < 1:
             raise Reject()
-        return {"t0": base, "r": {"data": data[:1], "value": data[0], "offset1": base, "offset2": base + 1, "length": 1},
-                "p": data[0], "t1": base + 1, "rest": data[1:]}
+        out = {"t0": base, "r": {"data": data[:1], "value": data[0], "offset1": base, "offset2": base + 1, "length": 1},
+               "p": data[0], "t1": base + 1, "rest": data[1:]}
+        if probe == "offsets-root":
+            out["q"] = ROOT[0][ROOT[1]]           # read through the outermost stream at the absolute start offset
+        return out
     raise ValueError(probe)
+
+
+ROOT = [b"", 0]        # (whole buffer, start offset) of the case being evaluated, for the probe that looks at the outermost stream
 
 
 def ref_level(view, base, pos, chain, probe):
@@ -169,6 +175,10 @@ def mk_probe(probe):
         return C.Byte
     if probe == "bytes2":
         return C.Bytes(2)
+    if probe == "offsets-root":
+        # ... plus a Pointer told to work on the outermost stream: that stream must be left exactly where it stood
+        return C.Struct("t0" / C.Tell, "r" / C.RawCopy(C.Byte), "p" / C.Pointer(C.this.t0, C.Byte), "q" / C.Pointer(C.this._params.start, C.Byte, stream=C.this._root._io),
+                        "t1" / C.Tell, "rest" / C.GreedyBytes)
     return C.Struct("t0" / C.Tell, "r" / C.RawCopy(C.Byte), "p" / C.Pointer(C.this.t0, C.Byte), "t1" / C.Tell, "rest" / C.GreedyBytes)
 
 
@@ -221,6 +231,7 @@ def run_case(ctx, case):
     chain, probe = case["chain"], case["probe"]
     buf, off = untag(case["data"]), case["offset"]
     ctx.ev()
+    ROOT[0], ROOT[1] = buf, off
     try:
         x, after = ref_level(buf, 0, off, chain, probe)
         want = ("ok", {"x": x, "t": after, "tail": buf[after:]})
@@ -235,6 +246,8 @@ def run_case(ctx, case):
         ctx.count("chain_not_constructible")
         return
     s = TracedStream(buf, pos=off)
+    if probe == "offsets-root":
+        kw = dict(kw, start=off)
     try:
         got = ("ok", d.parse_stream(s, **kw))
     except C.ConstructError as e:
@@ -287,9 +300,9 @@ def diff_kind(got, want, chain, probe):
             return "%s:bytes-after" % D
         if depth == len(chain) - 1:
             gx, wx = g.get("x"), w["x"]
-            if probe == "offsets" and isinstance(gx, dict):
-                for f in ("t0", "t1", "p", "rest"):
-                    if not veq(gx.get(f), wx[f]):
+            if probe in ("offsets", "offsets-root") and isinstance(gx, dict):
+                for f in ("t0", "t1", "p", "q", "rest"):
+                    if f in wx and not veq(gx.get(f), wx[f]):
                         return "%s:probe-%s" % (D, f)
                 return "%s:probe-rawcopy" % D
             return "%s:inner-sees-wrong-bytes" % D
@@ -385,7 +398,7 @@ TOEND = ("NullStripped", "OffsettedEnd", "ProcessXor")
 def gen_case(rng, maxdepth):
     depth = rng.randint(1, maxdepth)
     chain = [gen_delim(rng, True) for _ in range(depth)]
-    probe = rng.choice(["greedybytes", "greedyrange", "byte", "bytes2", "offsets", "offsets", "greedybytes"])
+    probe = rng.choice(["greedybytes", "greedyrange", "byte", "bytes2", "offsets", "offsets", "offsets-root", "greedybytes"])
     cls = rng.choice(["empty", "one", "short", "short", "long"])
     variant_level = rng.randrange(depth) if rng.random() < 0.25 else None
     variant = rng.choice(["overlong", "zero", "overlong"])
@@ -435,7 +448,7 @@ def run(ctx):
             singles.append(["ProcessXor", key, form])
     i = 0
     for D in singles:
-        for probe in ("greedybytes", "greedyrange", "byte", "bytes2", "offsets"):
+        for probe in ("greedybytes", "greedyrange", "byte", "bytes2", "offsets", "offsets-root"):
             for cls in ("empty", "one", "short", "long"):
                 for variant in ("exact", "overlong", "zero"):
                     i += 1
@@ -461,7 +474,48 @@ def run(ctx):
         if j < 2 and ctx.index < 3:
             ctx.sample(case)
     ctx.count("random_chain_cases", n)
+    build_confinement(ctx)
+
+
+def build_confinement(ctx):
+    """building: a delimited region is assembled on its own and is exactly what the inner construct wrote, however the inner
+    construct moved about inside it (a Pointer that restores the position, a backward Seek)"""
+    import construct as C
+    inners = [
+        ("pointer-ahead", C.Struct("a" / C.Byte, "p" / C.Pointer(2, C.Byte), "b" / C.Byte), {"a": 1, "p": 9, "b": 2}, bytes([1, 2, 9])),
+        ("pointer-back", C.Struct("a" / C.Byte, "b" / C.Byte, "p" / C.Pointer(0, C.Byte)), {"a": 1, "b": 2, "p": 9}, bytes([9, 2])),
+        ("seek-back", C.Struct("x" / C.Bytes(3), C.Seek(-2, 1), "c" / C.Byte), {"x": b"klm", "c": 7}, b"k\x07m"),
+        ("plain", C.Struct("a" / C.Byte, "b" / C.Int16ub), {"a": 1, "b": 0x0203}, bytes([1, 2, 3])),
+    ]
+    k = 0
+    for name, inner, v, region in inners:
+        delims = [("FixedSized(6)", C.FixedSized(6, inner), region + bytes(6 - len(region))), ("FixedSized(this._params.n)", C.FixedSized(C.this._params.n, inner), region + bytes(6 - len(region))),
+                  ("Prefixed(Byte)", C.Prefixed(C.Byte, inner), bytes([len(region)]) + region), ("Prefixed(Int16ub,includelength)", C.Prefixed(C.Int16ub, inner, includelength=True), (len(region) + 2).to_bytes(2, "big") + region),
+                  ("Prefixed(VarInt)", C.Prefixed(C.VarInt, inner), bytes([len(region)]) + region), ("FixedSized(6,FixedSized(4))", C.FixedSized(6, C.FixedSized(4, inner)), region + bytes(6 - len(region)))]
+        for dname, dl, want in delims:
+            k += 1
+            if not ctx.mine(k):
+                continue
+            for off in (0, 3):
+                d = C.Struct("h" / C.Byte, "f" / dl, "t" / C.Int16ub)
+                s = TracedStream(bytes([0xEE]) * off, pos=off)
+                ctx.ev()
+                case = {"build": dname, "inner": name, "offset": off}
+                try:
+                    d.build_stream({"h": 0x11, "f": v, "t": 0x2233}, s, n=6)
+                except Exception as e:
+                    ctx.violation("build-region-raises:%s:%s" % (dname.split("(")[0], type(e).__name__), "build raised %s: %s" % (type(e).__name__, e), case)
+                    continue
+                got = s.getvalue()[off:]
+                exp = b"\x11" + want + b"\x22\x33"
+                if got != exp or s.pos != off + len(exp):
+                    ctx.violation("build-region-not-confined:%s:%s" % (dname.split("(")[0], name), "built %s (stream at %d), the region assembled on its own gives %s (stream at %d)" % (got.hex(), s.pos, exp.hex(), off + len(exp)), case)
+                    continue
+                ctx.count("build_regions_checked")
+                ctx.nontrivial("build-region", dname, name, off)
 
 
 def replay(ctx, case):
+    if "build" in case:
+        return build_confinement(ctx)
     run_case(ctx, case)
